@@ -25,6 +25,9 @@
 //!             transport pend from now on, `@unblock` lets the pending and all later writes complete
 //!             (what is written then is attributed to the last frame sent while blocked). `@failwrite`
 //!             makes the reply write of the next frame fail with BrokenPipe (Wire::fail_next_write).
+//!             Scripted transmit side (Wire::script_writes): `@Wa<k>` the next write call is taken only up to k bytes,
+//!             `@Wb` the next write call is parked, `@R` room again (releases a parked write; what is written then is an
+//!             extra reply entry). Pieces of one reply may therefore be spread over several entries.
 //!             A hex entry need not be one ADU: any chunk of the byte stream (half a frame, many frames) may be
 //!             given; its reply entry is everything written after it. `@reopen` (only with chunks, no other
 //!             commands): see run_reopen_case.
@@ -523,6 +526,23 @@ fn run_case(line: &str, decode: DecodeLevel) -> String {
                     "block" => {
                         gate.lock().unwrap().blocked = true;
                     }
+                    "Wb" => {
+                        // the transmit path is full: the next write call is parked until @R
+                        wire.script_writes(&[crate::wire::WriteStep::Block]);
+                    }
+                    "R" => {
+                        // room again: whatever is left of the transmit script (steps a silent frame did not use) is dropped
+                        wire.0.lock().unwrap().write_script.clear();
+                        wire.release_write();
+                        settle().await;
+                        let out = wire.take_out().concat();
+                        replies.push(if out.is_empty() { "-".to_string() } else { hex(&out) });
+                        continue;
+                    }
+                    x if x.starts_with("Wa") => {
+                        // the next write call is taken only up to k bytes (write_all goes on with the rest)
+                        wire.script_writes(&[crate::wire::WriteStep::Accept(x[2..].parse().expect("Wa<k>"))]);
+                    }
                     "failwrite" => {
                         // the reply write of the NEXT frame fails (disarmed again if that frame is not answered)
                         wire.fail_next_write(std::io::ErrorKind::BrokenPipe);
@@ -539,7 +559,8 @@ fn run_case(line: &str, decode: DecodeLevel) -> String {
                         settle().await;
                         let out = wire.take_out().concat();
                         if let (Some(ix), false) = (last_blocked, out.is_empty()) {
-                            replies[ix] = hex(&out);
+                            // pieces of that reply may already have gone out (scripted transmit side)
+                            replies[ix] = if replies[ix] == "-" { hex(&out) } else { format!("{}{}", replies[ix], hex(&out)) };
                         }
                         last_blocked = None;
                         continue;
